@@ -99,61 +99,64 @@ Lv(e) == CASE e.k = "cond" -> 1
            [] e.k = "bin" -> BinLv(e.v[1])
            [] e.k = "opq" -> OpqLv(e.v[1])
            [] OTHER -> 15
-LvlOps(l) == CASE l = 2 -> {"or"} [] l = 3 -> {"and"} [] l = 6 -> {"|"} [] l = 7 -> {"^"} [] l = 8 -> {"&"}
-               [] l = 9 -> {"<<", ">>"} [] l = 10 -> {"+", "-"} [] l = 11 -> {"*", "/", "//", "%", "@"} [] OTHER -> {}
-NextLvl(l) == l + 1
-LvlKind(l) == IF l <= 3 THEN "bool" ELSE "bin"
+\* level of a binary operator token (0: not an operator)
+OpLv(s) == CASE s = "or" -> 2 [] s = "and" -> 3 [] s \in AllCmp -> 5 [] s = "|" -> 6 [] s = "^" -> 7 [] s = "&" -> 8
+             [] s \in {"<<", ">>"} -> 9 [] s \in {"+", "-"} -> 10 [] s \in {"*", "/", "//", "%", "@"} -> 11 [] OTHER -> 0
+TokLv(ts, i) == IF At(ts, i).t = "p" THEN OpLv(At(ts, i).s) ELSE 0
 
 R(n, p) == [n |-> n, p |-> p]
 Bad == R(Nil, 0)
 RI(xs, tr, p) == [xs |-> xs, tr |-> tr, p |-> p]
 BadItems == RI(<<>>, FALSE, 0)
 
-RECURSIVE PTest(_, _), PLvl(_, _, _), PTail(_, _, _, _), PCmpTail(_, _, _, _), PAtom(_, _), PTrail(_, _, _),
+RECURSIVE PTest(_, _), PExpr(_, _, _), PPrefix(_, _, _), PClimb(_, _, _, _), PCmpTail(_, _, _, _), PAtom(_, _), PTrail(_, _, _),
           PItems(_, _, _, _, _, _), PItem(_, _, _), PSlice(_, _)
 
+\* test: or_test ['if' or_test 'else' test]
 PTest(ts, i) ==
-  LET a == PLvl(ts, i, 2) IN
+  LET a == PExpr(ts, i, 2) IN
   IF a.p = 0 THEN Bad
   ELSE IF Is(ts, a.p, "if")
-       THEN LET b == PLvl(ts, a.p + 1, 2) IN
+       THEN LET b == PExpr(ts, a.p + 1, 2) IN
             IF b.p = 0 \/ ~Is(ts, b.p, "else") THEN Bad
             ELSE LET c == PTest(ts, b.p + 1) IN
                  IF c.p = 0 THEN Bad ELSE R(N("cond", <<>>, <<a.n, b.n, c.n>>), c.p)
        ELSE a
 
-PLvl(ts, i, l) ==
-  CASE l = 1 -> PTest(ts, i)
-    [] l \in {2, 3, 6, 7, 8, 9, 10, 11} ->
-         LET a == PLvl(ts, i, NextLvl(l)) IN IF a.p = 0 THEN Bad ELSE PTail(ts, a.n, a.p, l)
-    [] l = 4 -> IF Is(ts, i, "not")
-                THEN LET a == PLvl(ts, i + 1, 4) IN IF a.p = 0 THEN Bad ELSE R(N("un", <<"not">>, <<a.n>>), a.p)
-                ELSE PLvl(ts, i, 5)
-    [] l = 5 -> LET a == PLvl(ts, i, 6) IN IF a.p = 0 THEN Bad ELSE PCmpTail(ts, <<>>, <<a.n>>, a.p)
-    [] l = 12 -> IF IsIn(ts, i, {"+", "-", "~"})
-                 THEN LET a == PLvl(ts, i + 1, 12) IN IF a.p = 0 THEN Bad ELSE R(N("un", <<At(ts, i).s>>, <<a.n>>), a.p)
-                 ELSE PLvl(ts, i, 13)
-    [] l = 13 -> LET a == PLvl(ts, i, 15) IN
-                 IF a.p = 0 THEN Bad
-                 ELSE IF Is(ts, a.p, "**")
-                      THEN LET b == PLvl(ts, a.p + 1, 12) IN          \* right operand: a factor (unary allowed, ** right-assoc.)
-                           IF b.p = 0 THEN Bad ELSE R(N("bin", <<"**">>, <<a.n, b.n>>), b.p)
-                      ELSE a
-    [] l = 15 -> LET a == PAtom(ts, i) IN IF a.p = 0 THEN Bad ELSE PTrail(ts, a.n, a.p)
+\* an expression all of whose top-level operators have level >= m (precedence climbing, 2 <= m <= 12)
+PExpr(ts, i, m) == LET a == PPrefix(ts, i, m) IN IF a.p = 0 THEN Bad ELSE PClimb(ts, a.n, a.p, m)
 
-\* left-associative operator chains of one level
-PTail(ts, left, p, l) ==
-  IF IsIn(ts, p, LvlOps(l))
-  THEN LET b == PLvl(ts, p + 1, NextLvl(l)) IN
-       IF b.p = 0 THEN Bad ELSE PTail(ts, N(LvlKind(l), <<At(ts, p).s>>, <<left, b.n>>), b.p, l)
-  ELSE R(left, p)
+\* not_test: 'not' not_test | comparison ;  factor: ('+'|'-'|'~') factor | power ;  power: primary ['**' factor]
+PPrefix(ts, i, m) ==
+  IF Is(ts, i, "not")
+  THEN IF m > 4 THEN Bad
+       ELSE LET a == PExpr(ts, i + 1, 4) IN IF a.p = 0 THEN Bad ELSE R(N("un", <<"not">>, <<a.n>>), a.p)
+  ELSE IF IsIn(ts, i, {"+", "-", "~"})
+  THEN LET a == PPrefix(ts, i + 1, 12) IN IF a.p = 0 THEN Bad ELSE R(N("un", <<At(ts, i).s>>, <<a.n>>), a.p)
+  ELSE LET a == PAtom(ts, i) IN
+       IF a.p = 0 THEN Bad
+       ELSE LET b == PTrail(ts, a.n, a.p) IN
+            IF b.p = 0 THEN Bad
+            ELSE IF Is(ts, b.p, "**")
+                 THEN LET c == PPrefix(ts, b.p + 1, 12) IN        \* right operand: a factor (unary allowed, ** right-assoc.)
+                      IF c.p = 0 THEN Bad ELSE R(N("bin", <<"**">>, <<b.n, c.n>>), c.p)
+                 ELSE b
 
-\* comparison chains: one node with all operators and all operands
+\* left-associative operator chains; a comparison chain is one node with all operators and operands
+PClimb(ts, left, p, m) ==
+  LET l == TokLv(ts, p) IN
+  IF l = 0 \/ l < m THEN R(left, p)
+  ELSE IF l = 5
+       THEN LET r == PCmpTail(ts, <<>>, <<left>>, p) IN IF r.p = 0 THEN Bad ELSE PClimb(ts, r.n, r.p, m)
+       ELSE LET b == PExpr(ts, p + 1, l + 1) IN
+            IF b.p = 0 THEN Bad
+            ELSE PClimb(ts, N(IF l <= 3 THEN "bool" ELSE "bin", <<At(ts, p).s>>, <<left, b.n>>), b.p, m)
+
 PCmpTail(ts, ops, xs, p) ==
-  IF IsIn(ts, p, AllCmp)
-  THEN LET b == PLvl(ts, p + 1, 6) IN
+  IF TokLv(ts, p) = 5
+  THEN LET b == PExpr(ts, p + 1, 6) IN
        IF b.p = 0 THEN Bad ELSE PCmpTail(ts, Append(ops, At(ts, p).s), Append(xs, b.n), b.p)
-  ELSE IF ops = <<>> THEN R(xs[1], p) ELSE R(N("cmp", ops, xs), p)
+  ELSE R(N("cmp", ops, xs), p)
 
 AllKv(xs) == \A i \in 1..Len(xs) : xs[i].k = "kv"
 NoKv(xs) == \A i \in 1..Len(xs) : xs[i].k # "kv"
